@@ -23,14 +23,21 @@ import (
 	"encoding/json"
 	"errors"
 	"fmt"
+	"io"
 	"math/big"
+	"os"
+	"path/filepath"
 	"sort"
 	"strings"
 	"sync"
 
+	btcecdsa "github.com/btcsuite/btcd/btcec/v2/ecdsa"
 	"github.com/hyperledger/firefly-signer/pkg/eip712"
 	"github.com/hyperledger/firefly-signer/pkg/ethsigner"
+	"github.com/hyperledger/firefly-signer/pkg/fswallet"
+	"github.com/hyperledger/firefly-signer/pkg/keystorev3"
 	"github.com/hyperledger/firefly-signer/pkg/secp256k1"
+	"github.com/sirupsen/logrus"
 	"verifharness/cv"
 )
 
@@ -170,6 +177,7 @@ type retained struct {
 	got    []byte            // the slice it returned (kept, compared again at the end)
 	gd     *genDoc
 	wantHS []byte
+	cost   int
 }
 
 func copyGraph(g *graph) *graph {
@@ -270,7 +278,7 @@ func deriveDomain(r *cv.Rand, st *cv.Stats, prev *genDoc) *genDoc {
 		}
 	}
 	st.Hit("derive:one-domain-field:" + f.name)
-	return &genDoc{g: prev.g, primary: prev.primary, domain: prev.domain, doc: d}
+	return &genDoc{g: prev.g, primary: prev.primary, domain: prev.domain, cost: prev.cost, doc: d}
 }
 
 // every uint<M> / int<M> width and every bytes<M>, values at the ends of the range
@@ -341,6 +349,10 @@ func chainDoc(r *cv.Rand, st *cv.Stats, n int) *genDoc {
 }
 
 func (c *ctxT) bulkOne(r *cv.Rand, gd *genDoc, keep *[]*retained) {
+	if gd.cost > maxBlocks {
+		c.st.Hit("bulk:skipped-too-large")
+		return
+	}
 	text := gd.doc.text(r)
 	p, err := decode(text)
 	if err != nil {
@@ -356,7 +368,13 @@ func (c *ctxT) bulkOne(r *cv.Rand, gd *genDoc, keep *[]*retained) {
 			"reference": "0x" + hex.EncodeToString(want), "got": implDesc(o)})
 		return
 	}
-	rt := &retained{text: text, want: want, p: p, got: o.digest, gd: gd}
+	rt := &retained{text: text, want: want, p: p, got: o.digest, gd: gd, cost: gd.cost}
+	// the same object once more, at once (defaults filled in place by the first call, anything left on the payload)
+	if o2 := runEncode(p); o2.cls != 0 || !bytes.Equal(o2.digest, want) {
+		c.fail("a second call on the same TypedData object gives another digest", map[string]interface{}{"doc": string(text),
+			"first": "0x" + hex.EncodeToString(want), "got": implDesc(o2)})
+	}
+	c.st.Evaluations++
 	// HashStruct (the exported entry point) on the same type set object
 	if gd.primary != "EIP712Domain" {
 		rt.wantHS = refHashMessage(gd)
@@ -376,9 +394,10 @@ func (c *ctxT) bulkOne(r *cv.Rand, gd *genDoc, keep *[]*retained) {
 func (c *ctxT) bulk(n int) {
 	r := cv.NewRand(43)
 	saved, savedDims := maxBlocks, dimPool
-	maxBlocks = 400
-	dimPool = []int{0, 1, 2, 3, 1, 2, 3, 9, 10, 11, 16, 100}
-	defer func() { maxBlocks, dimPool = saved, savedDims }()
+	maxBlocks = 120
+	nodeLimit = 600
+	dimPool = []int{0, 1, 2, 3, 1, 2, 3, 1, 2, 9, 10, 11, 16, 33}
+	defer func() { maxBlocks, dimPool, nodeLimit = saved, savedDims, 0 }()
 	var keep []*retained
 	for m := 0; m < 8; m++ {
 		c.bulkOne(r, sweepDoc(r, c.st, m), &keep)
@@ -391,11 +410,11 @@ func (c *ctxT) bulk(n int) {
 		var gd *genDoc
 		if prev != nil && r.Intn(2) == 0 {
 			// same names as the previous document, one thing changed
-			switch r.Intn(4) {
+			switch r.Intn(5) {
 			case 0:
 				gd = buildDocG(r, c.st, prev.g, -1) // same types, new message and domain
 				c.st.Hit("derive:new-message")
-			case 1:
+			case 1, 2:
 				gd = deriveDomain(r, c.st, prev) // same document, one domain value changed
 			default:
 				gd = buildDocG(r, c.st, derive(r, c.st, prev.g), -1)
@@ -407,10 +426,10 @@ func (c *ctxT) bulk(n int) {
 		// the invariance clauses against the reference as well: unreferenced types / undeclared fields added
 		switch r.Intn(6) {
 		case 0:
-			gd = &genDoc{g: gd.g, primary: gd.primary, domain: gd.domain, doc: withExtraTypes(r, gd)}
+			gd = &genDoc{g: gd.g, primary: gd.primary, domain: gd.domain, cost: gd.cost, doc: withExtraTypes(r, gd)}
 			c.st.Hit("bulk:with-extra-types")
 		case 1:
-			gd = &genDoc{g: gd.g, primary: gd.primary, domain: gd.domain, doc: withExtraFields(r, gd)}
+			gd = &genDoc{g: gd.g, primary: gd.primary, domain: gd.domain, cost: gd.cost, doc: withExtraFields(r, gd)}
 			c.st.Hit("bulk:with-extra-fields")
 		}
 		c.bulkOne(r, gd, &keep)
@@ -444,8 +463,13 @@ func (c *ctxT) concurrent(r *cv.Rand, keep []*retained) {
 		return
 	}
 	var docs []*retained
-	for i := 0; i < 64; i++ {
-		docs = append(docs, keep[r.Intn(len(keep))])
+	for i := 0; i < 2000 && len(docs) < 64; i++ {
+		if rt := keep[r.Intn(len(keep))]; rt.cost <= 40 {
+			docs = append(docs, rt)
+		}
+	}
+	if len(docs) == 0 {
+		return
 	}
 	kp, _ := secp256k1.NewSecp256k1KeyPair(keccak([]byte("verif-c04-concurrent")))
 	type bad struct {
@@ -530,7 +554,8 @@ func (c *ctxT) concurrent(r *cv.Rand, keep []*retained) {
 		if i >= 3 {
 			break
 		}
-		c.fail("result differs when other calls run at the same time: "+b.what, map[string]interface{}{"doc": b.doc, "got": b.got})
+		c.fail("result differs when other calls run at the same time: "+b.what, map[string]interface{}{"doc": b.doc, "got": b.got,
+			"differing_results_in_this_run": len(bads), "concurrent_evaluations": evals})
 	}
 }
 
@@ -752,15 +777,15 @@ func (c *ctxT) round3ABI(thorough bool) {
 		c.st.Hit("abi:directed-dims")
 		c.abiCase(abiParam(c.r, g, "arg", &mty{kind: "ref", ref: "Outer"}, "Lib.").text(nil), g, "Outer")
 	}
-	n := 400
+	n := 500
 	if thorough {
 		n = 5000
 	}
 	r := cv.NewRand(44)
 	savedDims, savedR := dimPool, c.r
 	dimPool = []int{0, 1, 2, 3, 1, 2, 9, 10, 11, 16}
-	c.goOnly, c.r = true, r
-	defer func() { dimPool, c.goOnly, c.r = savedDims, false, savedR }()
+	c.goOnly, c.r, nodeLimit = true, r, 400
+	defer func() { dimPool, c.goOnly, c.r, nodeLimit = savedDims, false, savedR, 0 }()
 	for i := 0; i < n; i++ {
 		g := genAcyclicGraph(r, c.st, 1+i%8)
 		root := g.structs[0].name
@@ -784,6 +809,100 @@ func (c *ctxT) leadingZeroDigestDoc() string {
 		}
 	}
 	return ""
+}
+
+// Wallet.SignTypedDataV4 of pkg/fswallet (the other entry the property names): four key files, each
+// address asked to sign; the signature must recover (btcec) to the address asked for, for the
+// reference digest of the document, in both orders of asking and again after the others were used
+func (c *ctxT) round3Wallet() {
+	logrus.SetOutput(io.Discard)
+	logrus.SetLevel(logrus.PanicLevel)
+	dir, err := os.MkdirTemp("", "c04w")
+	if err != nil {
+		c.st.Hit("wallet:skipped-tempdir")
+		return
+	}
+	defer os.RemoveAll(dir)
+	var kps []*secp256k1.KeyPair
+	// four keys: the second shares the first byte of its address with the first, the third the last
+	// byte (found by search), so that a lookup under a shortened address meets a collision
+	for i, n := 0, 0; i < 4 && n < 20000; n++ {
+		kp, _ := secp256k1.NewSecp256k1KeyPair(keccak([]byte(fmt.Sprintf("verif-c04-wallet-%d-%d", cv.Seed(), n))))
+		if (i == 1 && kp.Address[0] != kps[0].Address[0]) || (i == 2 && kp.Address[19] != kps[0].Address[19]) {
+			continue
+		}
+		i++
+		kps = append(kps, kp)
+		pw := fmt.Sprintf("pw-%d", i)
+		wf := keystorev3.NewWalletFileLight(pw, kp)
+		b, _ := json.Marshal(wf)
+		name := hex.EncodeToString(kp.Address[:])
+		os.WriteFile(filepath.Join(dir, name+".key.json"), b, 0o600)
+		os.WriteFile(filepath.Join(dir, name+".pwd"), []byte(pw), 0o600)
+	}
+	ctx := context.Background()
+	w, err := fswallet.NewFilesystemWallet(ctx, &fswallet.Config{
+		Path: dir, SignerCacheSize: "250", SignerCacheTTL: "24h", DisableListener: true,
+		Filenames: fswallet.FilenamesConfig{PrimaryExt: ".key.json", PasswordExt: ".pwd", PasswordTrimSpace: true},
+		Metadata:  fswallet.MetadataConfig{Format: "none"},
+	})
+	if err == nil {
+		err = w.Initialize(ctx)
+	}
+	if err != nil {
+		c.st.Hit("wallet:skipped-init-error")
+		return
+	}
+	defer w.Close()
+	r := cv.NewRand(45)
+	var docs []*genDoc
+	for i := 0; i < 4; i++ {
+		docs = append(docs, buildDoc(r, c.st, 1+r.Intn(3), -1))
+	}
+	for round := 0; round < 3; round++ {
+		for k := range kps {
+			kp := kps[(k+round)%len(kps)]
+			gd := docs[(k+2*round)%len(docs)]
+			text := gd.doc.text(r)
+			p, err := decode(text)
+			if err != nil {
+				continue
+			}
+			want := refDigest(gd)
+			var res *ethsigner.EIP712Result
+			func() {
+				defer func() {
+					if x := recover(); x != nil {
+						err = fmt.Errorf("PANIC: %v", x)
+					}
+				}()
+				res, err = w.SignTypedDataV4(ctx, kp.Address, p)
+			}()
+			c.st.Evaluations++
+			c.st.Hit("wallet:sign")
+			bad := func(what string) {
+				c.fail("wallet signature clause: "+what, map[string]interface{}{"doc": string(text), "kind": "sign", "address": kp.Address.String()})
+			}
+			if err != nil {
+				bad("Wallet.SignTypedDataV4 failed for an address of the wallet: " + err.Error())
+				continue
+			}
+			rsv := []byte(res.SignatureRSV)
+			if !bytes.Equal(res.Hash, want) {
+				bad("hash is not the EIP-712 digest of the document")
+			}
+			if len(rsv) != 65 || (rsv[64] != 27 && rsv[64] != 28) {
+				bad("signatureRSV is not 65 bytes with V in {27,28}")
+				continue
+			}
+			pub, _, e := btcecdsa.RecoverCompact(append([]byte{rsv[64]}, rsv[0:64]...), want)
+			if e != nil {
+				bad("does not recover: " + e.Error())
+			} else if !bytes.Equal(keccak(pub.SerializeUncompressed()[1:])[12:], kp.Address[:]) {
+				bad("recovers to another address than the one asked to sign")
+			}
+		}
+	}
 }
 
 var _ = json.Marshal
